@@ -35,6 +35,12 @@ theorem orientation2d_spec (a b c : V2 K) (eps : K) (he : 0 ≤ eps) :
   · refine ⟨iff_of_false (by simp) h1, iff_of_false (by simp) h2, iff_of_true rfl ?_⟩
     rw [abs_le]; push Not at h1 h2; exact ⟨h2, h1⟩
 
+/-- the method `Triangle::orientation` (`dim2`) computes what `Triangle::orientation2d` computes (two copies of one body
+in the source; both are run against the model), hence `orientation2d_spec` holds for it -/
+theorem triangle_orientation_eq (a b c : V2 K) (eps : K) :
+    letI := fieldNum K sq
+    triOrientation a b c eps = orientation2d a b c eps := rfl
+
 /-! ## segments_intersection2d, non-parallel branch -/
 
 /-- the point denoted by a `SegmentPointLocation` on `[a, b]` (`barycentric_coordinates` applied to `a`, `b`) -/
